@@ -411,6 +411,7 @@ func c08(c *core.Ctx, r *core.Report) {
 		return
 	}
 	r.Exhaustive = true
+	smallModelCheck(c, r, "C08.R3", cons, fn, int64(maxLen))
 	rs.report(c, r, fn, func(row string) string {
 		if row == "permutation-invariant" {
 			return "C08.R4"
